@@ -421,7 +421,7 @@ Proof.
   eapply Forall_impl; [|exact H2]. intros p Hp. cbv beta in Hp. eapply sid_le_trans; eassumption.
 Qed.
 
-Lemma GInv_new : GInv new_group.
+Lemma GInv_mk st : GInv (mk_group st).
 Proof.
   split; cbn.
   - apply PInv_nil.
@@ -434,6 +434,9 @@ Proof.
   - reflexivity.
   - reflexivity.
 Qed.
+
+Lemma GInv_new : GInv new_group.
+Proof. apply GInv_mk. Qed.
 
 Lemma amem_alookup {A} c (l : list (bytes * A)) : amem c l = false <-> alookup c l = None.
 Proof. unfold amem. destruct (alookup c l); split; congruence. Qed.
@@ -1029,17 +1032,18 @@ Qed.
 Lemma rev_map_head {A B} (f : A -> B) l x r : rev l = x :: r -> rev (map f l) = f x :: tl (rev (map f l)).
 Proof. intros H. rewrite <- map_rev, H. reflexivity. Qed.
 
-(** a read with ">" (acknowledged mode): returns the first [count] present entries above
-    the cursor, in ID order; they become pending under the reader; the cursor moves to
-    the last of them *)
-Theorem read_new_inv now s g c count : SInv s -> GInv g ->
-  let r := st_read_group now s g c sid_max count false in
+(** a read with ">": returns the first [count] present entries above the cursor, in ID
+    order; the cursor moves to the last of them; unless NOACK they become pending under
+    the reader (with NOACK the pending set is untouched) *)
+Theorem read_new_inv now s g c count noack : SInv s -> GInv g ->
+  let r := st_read_group now s g c sid_max count noack in
   fst r = take_count count (filter (p_gt (g_last g)) (s_entries s)) /\
   GInv (snd r) /\
   sorted (fst r) /\ Forall (fun e => sid_lt (g_last g) (fst e)) (fst r) /\
   (fst r = [] -> snd r = g) /\
   (forall e rest, rev (fst r) = e :: rest -> g_last (snd r) = fst e) /\
-  (forall id, owner (g_by_id (snd r)) id = if sid_mem id (map fst (fst r)) then Some c else owner (g_by_id g) id).
+  (forall id, owner (g_by_id (snd r)) id =
+              if negb noack && sid_mem id (map fst (fst r)) then Some c else owner (g_by_id g) id).
 Proof.
   intros Hs Hg. cbn zeta. unfold st_read_group. rewrite sid_eqb_refl.
   rewrite (range_after_spec _ (g_last g) count (inv_sorted s Hs)).
@@ -1054,28 +1058,39 @@ Proof.
   destruct (rev es) as [|el rest] eqn:Erev.
   - apply (f_equal (@rev _)) in Erev. rewrite rev_involutive in Erev. cbn [rev] in Erev. subst es.
     cbn [fst snd map sid_mem]. split; [reflexivity|]. split; [assumption|]. split; [constructor|]. split; [constructor|].
-    split; [reflexivity|]. split; [intros e rest H; discriminate|]. intros id; reflexivity.
-  - destruct es as [|e0 es']; [discriminate|]. cbn [fst snd].
-    assert (Hrev : rev (map fst (e0 :: es')) = fst el :: tl (rev (map fst (e0 :: es')))).
-    { apply (rev_map_head fst _ el rest Erev). }
-    destruct (add_pending_inv now g c (map fst (e0 :: es')) (fst el) Hg (sorted_ids_nodup _ Hsorted)) as (H1 & H2 & H3).
-    + intros id Hin. apply in_map_iff in Hin as [e [He Hin]]. subst id. split.
-      * rewrite Forall_forall in Hgt. apply Hgt. assumption.
-      * apply (sorted_last_max _ el rest Hsorted Erev). assumption.
-    + exact Hrev.
-    + split; [reflexivity|]. split; [assumption|]. split; [assumption|]. split; [assumption|].
-      split; [intros Hnil; discriminate|]. split; [|exact H3].
-      intros e rest' He. rewrite He in Erev. inversion Erev; subst. exact H2.
+    split; [reflexivity|]. split; [intros e rest H; discriminate|]. intros id. rewrite andb_false_r. reflexivity.
+  - destruct es as [|e0 es']; [discriminate|].
+    assert (Hel : In el (e0 :: es')) by (apply in_rev; rewrite Erev; left; reflexivity).
+    assert (Hlt : sid_lt (g_last g) (fst el)) by (rewrite Forall_forall in Hgt; apply Hgt; assumption).
+    destruct noack; cbn [fst snd negb andb].
+    + (* NOACK: only the cursor moves *)
+      rewrite Erev. assert (sid_ltb (g_last g) (fst el) = true) as -> by (apply sid_ltb_lt; assumption).
+      split; [reflexivity|]. split.
+      { apply set_last_inv; [assumption|]. eapply Forall_impl; [|exact (gi_cursor _ _ _ _ Hg)].
+        intros p Hp. cbv beta in Hp. left. eapply sid_le_lt_trans; eassumption. }
+      split; [assumption|]. split; [assumption|]. split; [intros Hnil; discriminate|].
+      split; [|intros id; reflexivity].
+      intros e rest' He. inversion He; subst. reflexivity.
+    + assert (Hrev : rev (map fst (e0 :: es')) = fst el :: tl (rev (map fst (e0 :: es')))).
+      { apply (rev_map_head fst _ el rest Erev). }
+      destruct (add_pending_inv now g c (map fst (e0 :: es')) (fst el) Hg (sorted_ids_nodup _ Hsorted)) as (H1 & H2 & H3).
+      * intros id Hin. apply in_map_iff in Hin as [e [He Hin]]. subst id. split.
+        -- rewrite Forall_forall in Hgt. apply Hgt. assumption.
+        -- apply (sorted_last_max _ el rest Hsorted Erev). assumption.
+      * exact Hrev.
+      * split; [reflexivity|]. split; [assumption|]. split; [assumption|]. split; [assumption|].
+        split; [intros Hnil; discriminate|]. split; [|exact H3].
+        intros e rest' He. rewrite He in Erev. inversion Erev; subst. exact H2.
 Qed.
 
 (** the batch is a prefix: every present entry between the old and the new cursor is in it *)
-Lemma read_new_complete now s g c count : SInv s -> GInv g ->
-  let r := st_read_group now s g c sid_max count false in
+Lemma read_new_complete now s g c count noack : SInv s -> GInv g ->
+  let r := st_read_group now s g c sid_max count noack in
   forall e, In e (s_entries s) -> sid_lt (g_last g) (fst e) -> sid_le (fst e) (g_last (snd r)) -> In e (fst r).
 Proof.
-  intros Hs Hg. cbn zeta. destruct (read_new_inv now s g c count Hs Hg) as (H1 & H2 & H3 & H4 & H5 & H6 & _). cbn zeta in *.
+  intros Hs Hg. cbn zeta. destruct (read_new_inv now s g c count noack Hs Hg) as (H1 & H2 & H3 & H4 & H5 & H6 & _). cbn zeta in *.
   intros e He Hlt Hle.
-  destruct (rev (fst (st_read_group now s g c sid_max count false))) as [|el rest] eqn:Erev.
+  destruct (rev (fst (st_read_group now s g c sid_max count noack))) as [|el rest] eqn:Erev.
   - apply (f_equal (@rev _)) in Erev. rewrite rev_involutive in Erev. cbn in Erev.
     rewrite (H5 Erev) in Hle. exfalso. eapply sid_lt_not_le; eassumption.
   - rewrite (H6 _ _ eq_refl) in Hle.
@@ -1086,14 +1101,14 @@ Proof.
     rewrite Hsplit in Hin. apply in_app_or in Hin as [Hin|Hin]; [assumption|exfalso].
     assert (Hsf : sorted (filter (p_gt (g_last g)) (s_entries s))) by (apply sorted_filter, (inv_sorted s Hs)).
     rewrite Hsplit in Hsf. apply sorted_app_inv in Hsf as (_ & _ & Hab).
-    assert (Hel : In el (fst (st_read_group now s g c sid_max count false))) by (apply in_rev; rewrite Erev; left; reflexivity).
+    assert (Hel : In el (fst (st_read_group now s g c sid_max count noack))) by (apply in_rev; rewrite Erev; left; reflexivity).
     specialize (Hab el e Hel Hin). unfold elt in Hab. eapply sid_lt_not_le; eassumption.
 Qed.
 
 (** ---- histories of one group on one stream ---- *)
 Inductive gop :=
 | GStream (o : sop)                                   (* XADD / XDEL / XTRIM in between *)
-| GRead (now : Z) (c : bytes) (count : option Z)      (* XREADGROUP GROUP g c [COUNT n] STREAMS k > *)
+| GRead (now : Z) (c : bytes) (count : option Z) (noack : bool)   (* XREADGROUP GROUP g c [COUNT n] [NOACK] STREAMS k > *)
 | GAck (ids : list sid)
 | GClaim (now : Z) (c : bytes) (min_idle : Z) (ids : list sid) (force : bool)
 | GDelConsumer (c : bytes)
@@ -1104,8 +1119,8 @@ Definition gop_ok (o : gop) : Prop := match o with GStream o => sop_ok o | _ => 
 Definition gstep (s : stream) (g : group) (o : gop) : stream * group * list (bytes * sid) :=
   match o with
   | GStream o => (fst (sstep s o), g, [])
-  | GRead now c count =>
-      match st_read_group now s g c sid_max count false with
+  | GRead now c count noack =>
+      match st_read_group now s g c sid_max count noack with
       | (es, g') => (s, g', map (fun e => (c, fst e)) es)
       end
   | GAck ids => (s, snd (g_acknowledge g ids), [])
@@ -1161,14 +1176,14 @@ Lemma gstep_facts s g o : SInv s -> GInv g -> sid_le (g_last g) (s_last s) -> go
   match gstep s g o with (s1, g1, d) => step_facts s g s1 g1 d end.
 Proof.
   intros Hs Hg Hle Hok.
-  destruct o as [o|now c count|ids|now c mi ids f|c|c]; cbn [gstep].
+  destruct o as [o|now c count noack|ids|now c mi ids f|c|c]; cbn [gstep].
   - cbn [gop_ok] in Hok. destruct (sstep_inv s o Hs Hok) as [Hs1 _]. destruct (sstep_entries s o Hs Hok) as [Hl1 He1].
     unfold step_facts. cbn [map].
     split; [assumption|]. split; [assumption|]. split; [eapply sid_le_trans; eassumption|].
     split; [constructor; constructor|]. split; [apply sid_le_refl|]. split; [constructor|]. split; [assumption|].
     split; [assumption|]. intros e _ H1 H2. exfalso. eapply sid_lt_not_le; eassumption.
-  - pose proof (read_new_inv now s g c count Hs Hg) as Hr. pose proof (read_new_complete now s g c count Hs Hg) as Hc.
-    cbn zeta in Hr, Hc. destruct (st_read_group now s g c sid_max count false) as [es g1] eqn:Er. cbn [fst snd] in *.
+  - pose proof (read_new_inv now s g c count noack Hs Hg) as Hr. pose proof (read_new_complete now s g c count noack Hs Hg) as Hc.
+    cbn zeta in Hr, Hc. destruct (st_read_group now s g c sid_max count noack) as [es g1] eqn:Er. cbn [fst snd] in *.
     destruct Hr as (H1 & H2 & H3 & H4 & H5 & H6 & _). unfold step_facts.
     rewrite map_map. cbn [snd]. change (map (fun x : sentry => fst x) es) with (map fst es).
     assert (Hcur : sid_le (g_last g) (g_last g1) /\ Forall (fun i => sid_le i (g_last g1)) (map fst es) /\ sid_le (g_last g1) (s_last s)).
@@ -1251,10 +1266,10 @@ Qed.
 Definition groups_ok (gs : list (bytes * group)) : Prop := forall gn g, alookup gn gs = Some g -> GInv g.
 Lemma groups_ok_nil : groups_ok [].
 Proof. intros gn g H; discriminate. Qed.
-Lemma groups_ok_create gs gn : groups_ok gs -> alookup gn gs = None -> groups_ok (gs ++ [(gn, new_group)]).
+Lemma groups_ok_create gs gn st : groups_ok gs -> alookup gn gs = None -> groups_ok (gs ++ [(gn, mk_group st)]).
 Proof.
-  intros H Hn gn' g. rewrite (alookup_app_new gn gn' new_group gs Hn). destruct (beq gn' gn); [|apply H].
-  intros Heq; inversion Heq; subst. apply GInv_new.
+  intros H Hn gn' g. rewrite (alookup_app_new gn gn' (mk_group st) gs Hn). destruct (beq gn' gn); [|apply H].
+  intros Heq; inversion Heq; subst. apply GInv_mk.
 Qed.
 Lemma groups_ok_destroy gs gn : groups_ok gs -> groups_ok (aremove gn gs) /\ alookup gn (aremove gn gs) = None /\
   forall gn', gn' <> gn -> alookup gn' (aremove gn gs) = alookup gn' gs.
@@ -1373,3 +1388,55 @@ Qed.
 Theorem stream_writes_db_inv d parts oracle : DbInv d ->
   DbInv (snd (h_xadd d parts oracle)) /\ DbInv (snd (h_xdel d parts)) /\ DbInv (snd (h_xtrim d parts)).
 Proof. intros Hd. split; [apply xadd_db_inv|split; [apply xdel_db_inv|apply xtrim_db_inv]]; assumption. Qed.
+
+(** ---- repaired classes: positive statements ---- *)
+(** XPENDING with an inverted range selects nothing (it used to panic) *)
+Lemma pel_range_inverted l st en : sid_lt en st -> pel_range l st en = [].
+Proof.
+  intros H. unfold pel_range. apply filter_all_false. apply Forall_forall. intros p _.
+  destruct (sid_leb st (p_id p)) eqn:E1; [|reflexivity]. destruct (sid_leb (p_id p) en) eqn:E2; [|reflexivity].
+  apply sid_leb_le in E1, E2. exfalso. apply (sid_lt_not_le _ _ H). eapply sid_le_trans; eassumption.
+Qed.
+
+(** XGROUP CREATE with "$": the cursor starts at the last present entry, which is not
+    ahead of the stream *)
+Lemma last_entry_le_last s i : SInv s -> last_entry_id s = Some i -> sid_le i (s_last s).
+Proof.
+  intros Hs. unfold last_entry_id. destruct (rev (s_entries s)) as [|e r] eqn:E; [discriminate|].
+  intros H; inversion H; subst. pose proof (inv_last s Hs) as Hl. rewrite Forall_forall in Hl.
+  apply (Hl e). apply in_rev. rewrite E. left; reflexivity.
+Qed.
+
+(** XGROUP CREATE that answers an error has no effect beyond the lazy removal of an
+    expired key that any access through storage.get performs (after the repair 7f9490b) *)
+Theorem xgroup_create_error_atomic now d parts :
+  is_error (fst (h_xgroup_create now d parts)) = true ->
+  snd (h_xgroup_create now d parts) = d \/
+  exists k, nth_arg parts 2 = Some k /\ snd (h_xgroup_create now d parts) = snd (eng_get now d k).
+Proof.
+  unfold h_xgroup_create. destruct (nparts parts <? 5); [left; reflexivity|].
+  destruct (nth_arg parts 2) as [k|]; [|left; reflexivity].
+  destruct (nth_arg parts 3) as [gn|]; [|left; reflexivity].
+  destruct (nth_arg parts 4) as [idb|]; [|left; reflexivity].
+  destruct (negb (beq idb (bs "$")) && negb (beq idb (bs "0")) &&
+            match sid_of_bytes idb with Some _ => false | None => true end) eqn:Echk; [left; reflexivity|].
+  assert (Hstart : (if beq idb (bs "$") then Some sid_zero
+                    else if beq idb (bs "0") || beq idb (bs "0-0") then Some sid_zero else sid_of_bytes idb) <> None).
+  { destruct (beq idb (bs "$")); [discriminate|]. destruct (beq idb (bs "0")); [discriminate|].
+    cbn [negb andb orb] in *. destruct (beq idb (bs "0-0")); [discriminate|]. destruct (sid_of_bytes idb); [discriminate|discriminate]. }
+  intros Herr. right. exists k. split; [reflexivity|]. revert Herr.
+  unfold get_stream. destruct (eng_get now d k) as [[v| |] d1] eqn:Eg; cbn [fst snd].
+  - destruct v; cbn [fst snd]; try reflexivity.
+    destruct (get_entry d k) as [e|] eqn:Ee; cbn [fst snd].
+    + destruct (beq idb (bs "$")); [|destruct (beq idb (bs "0") || beq idb (bs "0-0")); [|destruct (sid_of_bytes idb); [|contradiction]]];
+        (destruct (amem gn (s_groups s)); cbn [fst snd is_error r_ok r_busygroup]; [reflexivity|discriminate]).
+    + destruct ((5 <? nparts parts) && is_kw (nth_error parts 5) "MKSTREAM"); cbn [fst snd]; [|reflexivity].
+      destruct (beq idb (bs "$")); [|destruct (beq idb (bs "0") || beq idb (bs "0-0")); [|destruct (sid_of_bytes idb); [|contradiction]]];
+        cbn [amem alookup s_groups empty_stream fst snd is_error r_ok]; discriminate.
+  - destruct ((5 <? nparts parts) && is_kw (nth_error parts 5) "MKSTREAM"); cbn [fst snd]; [|reflexivity].
+    destruct (beq idb (bs "$")); [|destruct (beq idb (bs "0") || beq idb (bs "0-0")); [|destruct (sid_of_bytes idb); [|contradiction]]];
+      cbn [amem alookup s_groups empty_stream fst snd is_error r_ok]; discriminate.
+  - destruct ((5 <? nparts parts) && is_kw (nth_error parts 5) "MKSTREAM"); cbn [fst snd]; [|reflexivity].
+    destruct (beq idb (bs "$")); [|destruct (beq idb (bs "0") || beq idb (bs "0-0")); [|destruct (sid_of_bytes idb); [|contradiction]]];
+      cbn [amem alookup s_groups empty_stream fst snd is_error r_ok]; discriminate.
+Qed.
